@@ -264,6 +264,7 @@ def read_store(ex, st):
                 b['head_present'] = True
             else:
                 b['tail'] = True
+                b['tail_empty'] = isinstance(n.payload, Raw) and len(n.payload.data) == 0
                 if isinstance(n.payload, JsonDoc):
                     tc = n.payload.value.fields[1]
                     b['tail_count'] = tc.fields[0] if tc.variant == 1 else None
@@ -275,6 +276,8 @@ def read_store(ex, st):
                 b['hunks'][int(m.group(3))] = pl.inner.value.items
             else:
                 b['hunks'][int(m.group(3))] = None
+                if isinstance(pl, Raw) and len(pl.data) == 0:
+                    b.setdefault('empty_hunks', set()).add(int(m.group(3)))
             b.setdefault('hunk_dirs', {})[int(m.group(3))] = int(m.group(2))
         m = re.match(r'^d/([0-9a-f]{3})/([0-9a-f]{128})$', p)
         if m and n.kind == 'file':
